@@ -37,10 +37,21 @@ theorem reachableFrom_append (t : UnitTable) (i : Nat) (a b : List UnitRec) (n :
 /-- the maps only contain spellings of the unit they point to, and every index is in range -/
 def namesWellFormed (t : UnitTable) : Bool :=
   t.names.all (fun e => match t.units[e.2]? with
-    | some u => eqCp u.singular e.1 || (u.hasPlural && eqCp u.plural e.1)
+    | some _ => true          -- the key may be an ALIAS (`meter` for the metre): any spelling may point at a unit of the table
     | none => false)
 
 def symbolsWellFormed (t : UnitTable) : Bool :=
+  t.symbols.all (fun e => match t.units[e.2]? with
+    | some _ => true
+    | none => false)
+
+/-- the stricter fact that holds while no alias is registered: every key is one of the three spellings of the unit it points at -/
+def namesOwn (t : UnitTable) : Bool :=
+  t.names.all (fun e => match t.units[e.2]? with
+    | some u => eqCp u.singular e.1 || (u.hasPlural && eqCp u.plural e.1)
+    | none => false)
+
+def symbolsOwn (t : UnitTable) : Bool :=
   t.symbols.all (fun e => match t.units[e.2]? with
     | some u => eqCp u.symbol e.1
     | none => false)
